@@ -2,7 +2,11 @@
    lists, queried qubit) and everything the implementation's public API returned for it.
      agree   : the model (Gen/Kernels.v + C12/Model.v) returns exactly the same values;
      spec_ok : the statement of C12 evaluated on the implementation's values alone (tiling, inside, disjoint, ancilla cover with
-               the 0-round gap, translation by the cycle length, estimate) -- no model function is called. *)
+               the 0-round gap, translation by the cycle length; estimate) -- no model function is called.
+   The estimate clause is a case kind of its own (CEst): it is judged, as the property states it, against the kernel_cycle_length of
+   the experiment kernel built from the same description.  For qutrit_calibration_points = False the code does not meet it (known
+   finding F15, theorem C12_estimate_vs_kernel_cycle_flag_off_refuted); keeping the clause apart lets the harness excuse exactly that
+   clause and nothing else of such a description. *)
 From Coq Require Import ZArith List Bool.
 Import ListNotations.
 From QCE Require Import Base.Prelude C12.Model.
@@ -21,7 +25,9 @@ Inductive case :=
 | CExp (rounds : list Z) (h c : bool) (reps : Z) (data anc : list Z) (q : Z)
        (start stop L klen xreps : Z) (ks : list kobs) (cal : cobs) (qs : list qobs)
        (cal_her cal_proj : list (list Z))                       (* experiment-level calibration getters, per StateKey *)
-       (sizes : list Z) (ests : list (outcome Z))               (* estimate_experiment_repetitions(rounds, h, c, size) *)
+| CEst (rounds : list Z) (h c : bool) (reps : Z) (data anc : list Z)
+       (L : Z)                                                  (* kernel_cycle_length of RepetitionExperimentKernel(rounds, h, c, data, anc, reps) *)
+       (sizes : list Z) (ests : list (outcome Z))               (* estimate_experiment_repetitions(rounds, h, c, size) for each size *)
 | CErr (rounds : list Z) (h c : bool) (reps : Z) (data anc : list Z) (size : Z) (init : outcome unit) (est : outcome Z).
 
 Definition lz_eqb := list_eqb Z.eqb.
@@ -61,7 +67,7 @@ Definition unit_eqb (a b : unit) : bool := true.
 
 Definition agree (cs : case) : bool :=
   match cs with
-  | CExp rounds h c reps data anc q start stop L klen xreps ks cal qs cal_her cal_proj sizes ests =>
+  | CExp rounds h c reps data anc q start stop L klen xreps ks cal qs cal_her cal_proj =>
       match experiment_kernel rounds h c data anc reps with
       | Raised _ => false
       | Value e =>
@@ -73,6 +79,12 @@ Definition agree (cs : case) : bool :=
           && list_eqb qobs_eqb (map (fun o => qobs_of e q (qo_n o)) qs) qs
           && mat_eqb (map (RepetitionExperimentKernel_get_heralded_calibration_acquisition_indices e q) StateKey_all) cal_her
           && mat_eqb (map (RepetitionExperimentKernel_get_projected_calibration_acquisition_indices e q) StateKey_all) cal_proj
+      end
+  | CEst rounds h c reps data anc L sizes ests =>
+      match experiment_kernel rounds h c data anc reps with
+      | Raised _ => false
+      | Value e =>
+          (L =? RepetitionExperimentKernel_kernel_cycle_length e)
           && list_eqb (outcome_eqb Z.eqb) (map (estimate_experiment_repetitions rounds h c) sizes) ests
       end
   | CErr rounds h c reps data anc size init est =>
@@ -123,11 +135,9 @@ Definition is_value {A} (o : outcome A) : bool := match o with Value _ => true |
 
 Definition spec_ok (cs : case) : bool :=
   match cs with
-  | CExp rounds h c reps data anc q start stop L klen xreps ks cal qs cal_her cal_proj sizes ests =>
+  | CExp rounds h c reps data anc q start stop L klen xreps ks cal qs cal_her cal_proj =>
       let man := is_member q anc in
       let mall := is_member q (data ++ anc) in
-      let last_stop := last (map ko_stop ks) (-1) in
-      let Lc := if c then L else last_stop - start + 1 in
       (* kernels contiguous and non-overlapping, one per rounds entry, calibration kernel last *)
       negb (match ks with [] => true | _ => false end)
       && lz_eqb (map ko_n ks) rounds
@@ -139,9 +149,10 @@ Definition spec_ok (cs : case) : bool :=
       && forallb (translate_ok L reps ks) qs
       && mat_eqb cal_her (map (fun b => concat (translates b L reps)) (co_her cal))
       && mat_eqb cal_proj (map (fun b => concat (translates b L reps)) (co_st cal))
-      (* the estimate inverts size = repetitions x cycle length (cycle length of the description with flag c) *)
-      && (length sizes =? length ests)%nat
-      && forallb (fun p => estimate_ok Lc (fst p) (snd p)) (combine sizes ests)
+  | CEst rounds h c reps data anc L sizes ests =>
+      (* the estimate inverts dataset size = repetitions x kernel cycle length: n on n x L, its own AssertionError elsewhere *)
+      (1 <=? L) && (length sizes =? length ests)%nat
+      && forallb (fun p => estimate_ok L (fst p) (snd p)) (combine sizes ests)
   | CErr rounds h c reps data anc size init est =>
       (* malformed stream: nothing is required of an empty rounds list; a non-empty one must yield a kernel and an estimate that
          either answers or raises its own assertion *)
